@@ -197,6 +197,24 @@ UNITS = [
                'Parameters_groupIdx); Group::parameter(p) refuses an untyped parameter before any change and otherwise stores it '
                '(unit Group_parameter); Parameters::group(Group) appends a group that is not there yet (assumed: no unit of its own); '
                'updateHeader does not throw on a valid object (unit c3d_updateHeader)']),
+    U('B_c3d_point_frames', 'contracts/bounded_columns.c', 'h_B_c3d_point_frames', [], ['C06', 'C07', 'C10', 'C05', 'C08', 'C13'], mode='bmc',
+      stubs={'Parameters__group__str': 'stubc_group', 'Group__parameter__str': 'stubc_parameter',
+             'vf_vec_string_ctor_copy': 'stubc_vec_string_copy', 'Points__point__Point_sz': 'stubc_Points_append',
+             'c3d__updateParameters': 'stubc_updateParameters'},
+      defines=['VF_COLUMN_POINT'], unwind=4, unwindset={'vf_string_ctor_lit.0': 8}, timeout=900, level='B', object_bits=12,
+      bound='at most 2 stored frames, 2 argument frames, 2 new points per frame, 2 existing labels, names of at most 1 character',
+      props={'memsafe': ['C13'], 'ub': ['C13']},
+      assumes=['plain symbolic execution of the real c3d::point(frames); by-name accessors = ghost directory; Points::point(p) (append) '
+               'and updateParameters() are recording stubs (their own units: Points_point_append/_alias; updateParameters has none)']),
+    U('B_c3d_analog_frames', 'contracts/bounded_columns.c', 'h_B_c3d_analog_frames', [], ['C06', 'C07', 'C10', 'C05', 'C08', 'C13'], mode='bmc',
+      stubs={'Parameters__group__str': 'stubc_group', 'Group__parameter__str': 'stubc_parameter',
+             'vf_vec_string_ctor_copy': 'stubc_vec_string_copy', 'SubFrame__channel__Channel_sz': 'stubc_SubFrame_append',
+             'c3d__updateParameters': 'stubc_updateParameters'},
+      defines=['VF_COLUMN_ANALOG'], unwind=4, unwindset={'vf_string_ctor_lit.0': 8}, timeout=900, level='B', object_bits=12,
+      bound='at most 2 stored frames, 2 argument frames, 2 sub-frames, 2 new channels per sub-frame, 2 existing labels, names of at most 1 character',
+      props={'memsafe': ['C13'], 'ub': ['C13']},
+      assumes=['plain symbolic execution of the real c3d::analog(frames); by-name accessors = ghost directory; SubFrame::channel(c) '
+               '(append) and updateParameters() are recording stubs; every stored frame carries the header\'s sub-frame count (C05)']),
     U('Parameters_write', WR, 'h_Parameters_write', ['Parameters__write/contract_Parameters__write'],
       ['C01', 'C03', 'C13', 'C14', 'C10'], replace=['Group__write/contract_abs_Group__write'], unwind=5, loops=True, timeout=900,
       pre_unwind={'vf_stream_write.0': 5, 'Parameters__write.0': 3},
